@@ -246,12 +246,14 @@ def codec_model(res, work):
         except BaseException:  # pylint:disable=broad-except
             ok = False
         predicted_fail = tuple(key) in failing or key in failing
-        if ok == predicted_fail:
-            raise MachineryError(f"the Codec model predicts {'failure' if predicted_fail else 'success'} for a null in {key} but the real schema "
-                                 f"{'round-trips it' if ok else 'fails'}: the small model does not describe marshmallow here")
+        if ok and predicted_fail:
+            raise MachineryError(f"the Codec model predicts a load failure for a null in {key} but the real schema round-trips it: the small model "
+                                 "does not describe marshmallow here")
         if not ok:
-            res.violation(f"{key[0]}.{key[1]} can be None in objects ahbicht produces, but the schema does not load the null it dumps (allow_none is "
-                          f"{[r['allow_none'] for r in rows if (r['schema'], r['name']) == key]})", {"kind": "codec", "field": list(key)})
+            why = (f"allow_none is {[r['allow_none'] for r in rows if (r['schema'], r['name']) == key]}" if predicted_fail
+                   else "although the field table allows null: the schema changes the value on the way (pre_load / post_load / defaults)")
+            res.violation(f"{key[0]}.{key[1]} can be None in objects ahbicht produces, but dump -> load does not give the object back ({why})",
+                          {"kind": "codec", "field": list(key)})
     if t["violated_invariant"] and not res.violations:
         raise MachineryError("TLC reports a RoundTrip violation that no probe reproduces")
 
